@@ -113,12 +113,18 @@ class Layout:
         if is_call_to(t, "numpy.divide", "numpy.multiply") and \
                 len(t.args[1]) == 2 and tm.is_const(t.args[1][1]):
             inner = self.cols(t.args[1][0])
+            if t.args[1][1].args[1] in (1, 1.0) and \
+                    t.args[1][1].args[1] is not True:
+                return inner         # x / 1.0 and x * 1.0 are x, exactly
             for lab in inner:
                 self.scales[lab] = (tm.callee_name(t), t.args[1][1].args[1])
             return inner
         if t.op == "binop" and t.args[0] in ("Div", "Mult") and \
                 tm.is_const(t.args[2]):
             inner = self.cols(t.args[1])
+            if t.args[2].args[1] in (1, 1.0) and \
+                    t.args[2].args[1] is not True:
+                return inner
             for lab in inner:
                 self.scales[lab] = (t.args[0], t.args[2].args[1])
             return inner
